@@ -35,13 +35,13 @@ def canon(v, _depth=0) -> str:  # noqa: C901, PLR0911, PLR0912
     if t is _dt.date:
         return "D:%s" % v.isoformat()
     if t is list:
-        return "l[" + ",".join(canon(x, _depth + 1) for x in v) + "]"
+        return "l[" + ",".join([canon(x, _depth + 1) for x in v]) + "]"  # list comprehension: no C-level recursion through join(generator)
     if t is tuple:
-        return "t(" + ",".join(canon(x, _depth + 1) for x in v) + ")"
+        return "t(" + ",".join([canon(x, _depth + 1) for x in v]) + ")"
     if t in (set, frozenset):
         return "S{" + ",".join(sorted(canon(x, _depth + 1) for x in v)) + "}"
     if t is dict:
-        items = sorted((canon(k, _depth + 1), canon(x, _depth + 1)) for k, x in v.items())
+        items = sorted([(canon(k, _depth + 1), canon(x, _depth + 1)) for k, x in v.items()])
         return "m{" + ",".join("%s=%s" % kv for kv in items) + "}"
     name = t.__name__
     if name == "BatchResult":
